@@ -20,8 +20,29 @@ if ! go build -tags verif -o "$BIN" ./cmd/check 2>"$VERIF/.bin/build.$$.log"; th
   exit 2
 fi
 rm -f "$VERIF/.bin/build.$$.log"
+# properties with a schedules quantifier: generate the overlay from /repo's current
+# tree, build the schedule explorer with it and run it first; its summary is
+# merged into the property's evidence by the main check
+SUMMARY=""
+case "$PROP" in
+C10|C16)
+  case " $* " in *" -replay "*) ;; *)
+  OV="$VERIF/.bin/ov.$$"
+  rm -rf "$OV"; mkdir -p "$OV"
+  if ! go run ./cmd/overlaygen -repo /repo -rt "$VERIF/mc/schedrt" -out "$OV" . backend/joinserver backend applayer/clocksync applayer/multicastsetup applayer/fragmentation applayer/firmwaremanagement > "$OV/gen.log" 2>&1 \
+     || ! go build -tags "verif sched" -overlay "$OV/overlay.json" -o "$BIN.sched" ./cmd/schedcheck > "$OV/build.log" 2>&1; then
+    cat "$OV/gen.log" "$OV/build.log" 2>/dev/null
+    echo "HARNESS-ERROR property=$PROP build of the schedule explorer (overlay) failed"
+    rm -rf "$OV" "$BIN" "$BIN.sched"
+    exit 2
+  fi
+  "$BIN.sched" -property "$PROP" -tier "$TIER" -out "$OV/summary.json" -overlay-report "$OV/report.json"
+  SUMMARY="$OV/summary.json"
+  ;; esac
+  ;;
+esac
 cd "$VERIF" || exit 2
-"$BIN" -property "$PROP" -tier "$TIER" "$@"
+VERIF_SCHED_SUMMARY="$SUMMARY" "$BIN" -property "$PROP" -tier "$TIER" "$@"
 rc=$?
-rm -f "$BIN"
+rm -rf "$BIN" "$BIN.sched" "$VERIF/.bin/ov.$$"
 exit $rc
